@@ -260,8 +260,14 @@ def _compare(out, exp, order, fr0, colspec, vnames, pn, scheme, copts):
     wi = copts.get("write_index")
     if ic is not None and (wi is True or wi is None) and not pn:
         got, problems = table.canon_cells(out.index, ic)
+        fi = 1
+        if ic["kind"] == "datetime" and str(out.index.dtype).startswith("datetime64[ns") and ic["unit"] != "ns" \
+                and copts.get("times") == "int96":
+            fi = cases.UNIT_NS[ic["unit"]]       # INT96 storage reads back as nanoseconds, as for the columns above
         for pos, rid in enumerate(rr):
             e = exp[rid][2]
+            if e is not MISSING and fi != 1:
+                e = e * fi
             g = got[pos]
             if (e is MISSING) != (g is MISSING) or (e is not MISSING and (type(e) is not type(g) or e != g)):
                 return ("index_value|" + _tag(ic), "index at row id %d: expected %r got %r" % (rid, e, g))
